@@ -83,26 +83,34 @@ PARSE_NOTE = NOTE + (" The table-driven parser model (lexer, LR driver with erro
                      "regenerated/transcribed from the lalrpop output of the build under test and must equal add_content exactly "
                      "(tree, all ranges, all diagnostics with messages) on every input of the run.")
 CLAIMS.update({
-    "C01": ("proof", "PARTIAL proof. Coq theorems: validation of grammar-shaped trees cannot panic (C01_validation_total); one result per held file "
-            "tagged with its id (C01_ids); one slot per id after any history (C01_slots); every position the model builds is a character "
-            "boundary inside the text (C01_positions_partial). NOT proved: that the parser model never reaches Panicked / OutOfFuel for the "
-            "regenerated tables (C01_full is stated, not proved). That part is decided by running: the exact parser model and the "
-            "implementation on soups, mutated documents, Unicode injection, multi-file sets, deep nesting and large inputs under "
-            "catch_unwind and a timeout.",
-            "Coq proof (validation totality, bookkeeping, position soundness) + exact differential correspondence of a table-driven parser model + crash/timeout harness",
+    "C01": ("proof", "PARTIAL proof. Coq theorems: the table-driven parser never panics on any text, for the regenerated lexer, LR and action "
+            "tables (C01_parse_partial: add_content stores a result or runs out of fuel; C01_reductions_typed: every action is applied to "
+            "values of the types it expects and returns the type of its nonterminal -- a typed-stack invariant whose table-specific "
+            "parts are finite checks computed by Coq over all 256 states and 210 productions); validation of grammar-shaped trees cannot "
+            "panic (C01_validation_total); one result per held file tagged with its id (C01_ids); one slot per id after any history "
+            "(C01_slots); every position is a character boundary inside the text (C01_positions_partial). NOT proved: that the loops' fuel "
+            "suffices (termination of the LR automaton); a run out of fuel is a correspondence failure. Also decided by running: exact "
+            "parser model vs implementation on soups, mutated documents, Unicode injection, multi-file sets, histories, deep nesting and "
+            "large inputs under catch_unwind and a timeout.",
+            "Coq proof (typed-stack safety invariant over the regenerated tables, validation totality, bookkeeping, position soundness) + exact differential correspondence + crash/timeout harness",
             PARSE_NOTE),
-    "C02": ("other", "No grammar-level theorem yet. Decided by (1) an oracle that compares the implementation's tree with the abstract document "
-            "each test was rendered from, in 4 layouts per document (minimal, spaces, wild Unicode/comment trivia, safe), and (2) the exact "
-            "correspondence of the implementation with the table-driven Coq parser model on the same inputs. Coq's role here is the "
-            "executable model, not a theorem: see DESIGN.md section 8.",
-            "generator-based mirror oracle + exact differential correspondence with the Coq parser model (no theorem)",
+    "C02": ("proof", "PARTIAL proof. Coq theorem C02_tree_is_a_function_of_the_tokens: two texts that the regenerated lexer cuts into the same tokens "
+            "(same table entry and text; offsets, whitespace, line endings, comments free) give trees that are equal once ranges and "
+            "documentation are erased -- a lockstep simulation of two runs of the table-driven parser (through error recovery), resting on "
+            "the fact, proved for every generated and user action, that erasure is a homomorphism of the actions. NOT proved: that trivia "
+            "between two tokens leaves the token sequence unchanged, and that the tree mirrors the abstract document; those are decided by "
+            "the mirror oracle (implementation's tree vs the abstract document each test was rendered from, 4 layouts per document) and "
+            "the exact correspondence of the implementation with the parser model.",
+            "Coq proof (tree modulo positions/docs is a function of the token sequence) + generator-based mirror oracle + exact differential correspondence",
             PARSE_NOTE),
-    "C03": ("proof", "PARTIAL proof. Coq theorems: validation never drops a diagnostic (C03_kept, C03_kept_all); a fatal parse error leaves no tree "
-            "and an Error (C03_fatal_is_loud_partial). NOT proved: agreement of the verdict with the context-free grammar (C03_full stated only). "
-            "Decided by running: documents well-formed / malformed by construction, mutations and soups, lexical corner cases, against the "
-            "oracles 'no tree => Error', 'no keyword stored as identifier', 'well-formed => silent', 'malformed-by-construction => Error', "
-            "plus exact correspondence with the parser model.",
-            "Coq proof (diagnostic preservation, loud failure) + construction-based oracles + exact differential correspondence",
+    "C03": ("proof", "PARTIAL proof. Coq theorems, for every text and the regenerated tables: a stored result without a tree carries an Error "
+            "(C03_no_silent_failure); no user-chosen identifier stored in a tree -- package/import segment, item, member, argument, enum "
+            "element, annotation-parameter name, user type name segment at any depth -- is an AIDL keyword or reserved Java/C++ word "
+            "(C03_names_never_keywords; at the lexer: C03_ident_never_keyword, C03_token_not_later_word); validation never drops a diagnostic "
+            "(C03_kept, C03_kept_all). NOT proved: 'no syntax diagnostic exactly when well-formed under the grammar' (needs a grammar-level "
+            "reference). Decided by running: documents well-formed / malformed by construction, mutations and soups, lexical corner cases, "
+            "against the oracles 'well-formed => silent', 'malformed-by-construction => Error', plus exact correspondence with the parser model.",
+            "Coq proof (loud failure, identifiers never keywords, diagnostic preservation) + construction-based oracles + exact differential correspondence",
             PARSE_NOTE),
     "C04": ("proof", "PARTIAL proof. Coq theorems: every position built through Position::new is a character boundary inside the text and carries the "
             "lookup's line/column (C04_position, C04_range_partial, C04_boundary). Exactness and nesting are decided by text-based oracles on "
